@@ -366,7 +366,8 @@ def run_real(case):
         before = [G.snap(g) for g in grids]
         LAST.clear()
         status = apply_real(grids, op, pool, case.get('shared', False))
-        steps.append({'op': op, 'status': status, 'before': before, 'dict': LAST.get('dict'), 'obs': observe(grids), 'caller_changed': pool.changed(),
+        steps.append({'op': op, 'status': status, 'before': before, 'dict': LAST.get('dict'),
+                      'shared': count_shared([a for g in grids for a in coord_arrays(g)] + list(pool.arrays)), 'obs': observe(grids), 'caller_changed': pool.changed(),
                       'pool': [a.tolist() for a in pool.arrays], 'pool_keys': list(pool.keys)})
         if status != 'ok':
             break       # later ops refer to slots that may not exist; the history ends here
@@ -680,6 +681,129 @@ def model_requests(case):
 
 
 # ---------------------------------------------------------------------------------------------
+# the reference model (Model/GridHeap.lean): arrays held by reference, which arrays are shared
+
+def coord_arrays(g):
+    """the ndarray objects the coordinates of a grid hold (what in-place operations write to)"""
+    c = g.coords
+    name = type(c).__name__
+    if name == 'RegularCoords':
+        return [c.delta, c.zero]
+    if name == 'SeparatedCoords':
+        return list(c.separated_coords)
+    return list(c.coords)
+
+
+def count_shared(arrays):
+    """number of pairs of array slots whose memory overlaps (the same object in two slots included)"""
+    from numpy.lib import array_utils
+    bounds = []
+    for a in arrays:
+        a = np.asarray(a)
+        bounds.append(array_utils.byte_bounds(a) if a.size else None)
+    n = 0
+    for i in range(len(bounds)):
+        for j in range(i + 1, len(bounds)):
+            bi, bj = bounds[i], bounds[j]
+            if bi is not None and bj is not None and bi[0] < bj[1] and bj[0] < bi[1]:
+                n += 1
+    return n
+
+
+def ref_ops(opname, arg, snap):
+    """the array operations of an in-place scale / shift on a grid with snapshot `snap`"""
+    kind = snap['kind']
+    ndim = len(snap['data'][1]) if kind == 'reg' else len(snap['data'])
+    if opname == 'scale':
+        f = [arg[1]] * ndim if arg[0] == 's' else list(arg[1])
+        if snap['sys'] == 'p':
+            f = [arg[1], 1.0]
+        if kind == 'reg':
+            return ['mv:' + rat_list(f), 'mv:' + rat_list(f)]
+        return ['ms:' + rat(x) for x in f]
+    b = list(arg)
+    if kind == 'reg':
+        return ['k', 'av:' + rat_list(b)]
+    return ['as:' + rat(x) for x in b]
+
+
+def snap_arrays(snap):
+    return [snap['data'][0], snap['data'][2]] if snap['kind'] == 'reg' else snap['data']
+
+
+def ref_plan(case, steps):
+    """`ref …` requests mirroring a history on the reference model, and what to compare after each step:
+    (index of the `shared` answer, real number of shared array pairs, [(index of `val`, real arrays)])"""
+    lines = ['C10 ref reset']
+    checks = []
+    nobj = 0
+    gobj = []           # object index of every live grid
+    pobj = {}           # object index of every caller array (by pool index)
+    for st in steps:
+        op, kind = st['op'], st['op'][0]
+        if st['status'] != 'ok' or kind in ('shiftf', 'shiftedf'):
+            break
+        snaps = st['obs']['snaps']
+        if kind == 'new' and op[1].get('shared') and not op[1].get('int'):
+            spec = op[1]
+            arrs = [spec['data'][0], spec['data'][2]] if spec['kind'] == 'reg' else spec['data']
+            idx = []
+            for a in arrs:
+                k = st['pool_keys'].index(tuple(float(v) for v in a))
+                if k not in pobj:
+                    lines.append('C10 ref new ' + G.rat_lists([list(st['pool_keys'][k])]))
+                    pobj[k] = nobj
+                    nobj += 1
+                idx.append(pobj[k])
+            w = spec['w']
+            if isinstance(w, list):
+                k = st['pool_keys'].index(tuple(float(v) for v in w))
+                if k not in pobj:
+                    lines.append('C10 ref new ' + G.rat_lists([list(st['pool_keys'][k])]))
+                    pobj[k] = nobj
+                    nobj += 1
+            lines.append('C10 ref construct [' + ','.join(str(i) for i in idx) + ']')
+            gobj.append(nobj)
+            nobj += 1
+        elif kind in ('new', 'rebuild', 'reversed'):
+            lines.append('C10 ref new ' + G.rat_lists(snap_arrays(snaps[-1])))
+            gobj.append(nobj)
+            nobj += 1
+        elif kind == 'reverse':
+            # the arrays of the grid are re-bound to new ones (`x = x[::-1]`, `delta = -delta`): a fresh object takes its place
+            lines.append('C10 ref new ' + G.rat_lists(snap_arrays(snaps[op[1]])))
+            gobj[op[1]] = nobj
+            nobj += 1
+        elif kind in ('rt', 'rtas'):
+            lines.append('C10 ref copy %d' % gobj[op[1]])
+            gobj.append(nobj)
+            nobj += 1
+        elif kind in ('scale', 'shift'):
+            lines.append('C10 ref inplace %d %s' % (gobj[op[1]], ' '.join(ref_ops(kind, op[2], st['before'][op[1]]))))
+        elif kind in ('scaled', 'shifted'):
+            lines.append('C10 ref copied %d %s' % (gobj[op[1]], ' '.join(ref_ops(kind[:-1], op[2], st['before'][op[1]]))))
+            gobj.append(nobj)
+            nobj += 1
+        elif kind == 'mat':
+            pass
+        else:
+            raise MachineryError('reference model: unknown op %r' % (op,))
+        if len(gobj) != len(snaps):
+            raise MachineryError('reference model: %d objects for %d live grids' % (len(gobj), len(snaps)))
+        shared_at = len(lines)
+        lines.append('C10 ref shared')
+        vals = []
+        for k, o in enumerate(gobj):
+            vals.append((len(lines), snap_arrays(snaps[k])))
+            lines.append('C10 ref val %d' % o)
+        for k, o in sorted(pobj.items()):
+            vals.append((len(lines), [list(st['pool'][k])]))
+            lines.append('C10 ref val %d' % o)
+        checks.append((shared_at, st['shared'], vals, op))
+    return lines, checks
+
+
+# ---------------------------------------------------------------------------------------------
 # NaN coordinates: what `==` and `hash` do (IEEE comparison; model `Grid.eqNaN`, theorem `eq_refl_iff_no_nan`)
 
 def gen_nan_case(rng):
@@ -855,6 +979,7 @@ def run(ctx):
     all_lines = []
     plan = []
     nan_plan = []
+    ref_plans = []
     nan_cases = list(DIRECTED_NAN) + [gen_nan_case(ctx.rng) for _ in range(ctx.scale(250, 2000))]
     for case in nan_cases:
         obs = run_nan_real(case)
@@ -906,8 +1031,11 @@ def run(ctx):
             lines.append('C10 arrs')
             ctx.count('cases-with-caller-arrays')
             ctx.count('aliased-constructor-inputs', sum(1 for op in case['ops'] if op[0] == 'new' and aliased(op[1])))
+        rlines, rchecks = ref_plan(case, steps)
         plan.append((case, steps, len(all_lines), marks))
         all_lines += lines
+        ref_plans.append((case, len(all_lines), rchecks))
+        all_lines += rlines
     out = ctx.model(all_lines)
     inexact = 0
     for case, obs, first, n in nan_plan:
@@ -916,6 +1044,24 @@ def run(ctx):
         real = [['ok 1' if obs['eq'][i][j] is True else 'ok 0' if obs['eq'][i][j] is False else 'E' for j in range(n)] for i in range(n)]
         if model != real:
             dis(ctx, 'C10 eq NaN', {'case': case, 'impl': obs['eq'], 'model': model, 'has-nan': obs['flags']})
+    for case, rbase, rchecks in ref_plans:
+        for shared_at, real_shared, vals, op in rchecks:
+            ctx.traces_validated += 1
+            ctx.count('ref:steps')
+            ans = out[rbase + shared_at]
+            if ans != 'ok %d' % real_shared:
+                ctx.count('ref:shared-arrays-in-implementation', real_shared)
+                dis(ctx, 'C10 ref shared', {'case': case, 'after': op, 'impl-shared-array-pairs': real_shared, 'model': ans})
+                break
+            bad = None
+            for at, real in vals:
+                ma = G.parse_rat_lists(out[rbase + at].split(' ', 1)[1]) if out[rbase + at].startswith('ok ') else None
+                if ma is None or len(ma) != len(real) or not all(G.lists_close(a, b) for a, b in zip(ma, real)):
+                    bad = {'case': case, 'after': op, 'impl': real, 'model': out[rbase + at][:200]}
+                    break
+            if bad is not None:
+                dis(ctx, 'C10 ref values', bad)
+                break
     for case, steps, base, marks in plan:
         for st, m in zip(steps, marks):
             op = st['op']
